@@ -10,7 +10,19 @@ VALID_STMIN = list(range(0, 0x80)) + list(range(0xF1, 0xFA))
 
 
 def rand_id(rng, ext):
-    return rng.randrange(0, 1 << 29) if ext else rng.randrange(0, 0x800)
+    """identifiers, boundary values weighted (0, 1, max, max-1, single-bit patterns)"""
+    hi = (1 << 29) if ext else 0x800
+    r = rng.random()
+    if r < 0.12:
+        return rng.choice([0, 1, hi - 1, hi - 2, hi >> 1, 0xFF % hi, 0x100 % hi])
+    return rng.randrange(0, hi)
+
+
+def rand_byte(rng):
+    """address bytes, boundary values weighted"""
+    if rng.random() < 0.25:
+        return rng.choice([0, 0, 1, 0x7F, 0x80, 0xFE, 0xFF, 0xFF])
+    return rng.randrange(256)
 
 
 def rand_addr_pair(rng, mode=None, asym_prob=0.15):
@@ -39,7 +51,7 @@ def rand_half(rng, mode=None):
     rxid = rand_id(rng, ext)
     while rxid == txid:
         rxid = rand_id(rng, ext)
-    ta, sa, ae = rng.randrange(256), rng.randrange(256), rng.randrange(256)
+    ta, sa, ae = rand_byte(rng), rand_byte(rng), rand_byte(rng)
     phys = func = None
     if m in (2, 6) and rng.random() < 0.3:
         phys = rng.randrange(0, 1 << 29)
